@@ -409,7 +409,7 @@ func scenarios(c *runlib.Ctx) (all []e3.Scenario, lims []e3.Limits) {
 	}
 
 	keys := []string{"k1", "k2"}
-	full := e3.Limits{MaxBound: 64, MaxExecs: runlib.Pick(c, int64(60_000), int64(3_000_000))}
+	full := e3.Limits{Exhaust: true, MaxBound: runlib.Pick(c, 2, 4), MaxExecs: runlib.Pick(c, int64(60_000), int64(3_000_000))}
 	bounded := e3.Limits{MaxBound: runlib.Pick(c, 2, 4), MaxExecs: runlib.Pick(c, int64(20_000), int64(2_000_000))}
 
 	// 2 threads x <=2 Gets and 3 threads x 1 Get: to exhaustion.
